@@ -85,8 +85,13 @@ def run_model(exe, lines):
 def catalog(ctx):
     p = subprocess.run([vf.PY, IMPL, '--catalog'], capture_output=True, text=True, env=vf.IMPL_ENV, timeout=300)
     lines = [l for l in p.stdout.split('\n') if l.startswith('[')]
-    if p.returncode != 0 or not lines:
+    probe = [json.loads(l) for l in p.stdout.split('\n') if l.startswith('{')]
+    if p.returncode != 0 or not lines or not probe:
         raise RuntimeError('c08_impl --catalog failed: ' + _clean(p.stderr)[-1500:])
+    # the supporting run relies on pool workers inheriting module constants patched in the parent (fork)
+    if probe[0]['workers_see'] != [list(SMALL)] or not probe[0]['other_process']:
+        raise RuntimeError('c08: pool workers do not inherit patched module constants: %r' % (probe[0],))
+    ctx.notes.append('fork probe: %r' % (probe[0],))
     cat = [(t, v, bytes.fromhex(h), so) for t, v, h, so in json.loads(lines[0])]
     if len(cat) < 20:
         raise RuntimeError('c08: message catalog has only %d classes' % len(cat))
@@ -235,6 +240,19 @@ def gen_boundary(rng, cat, R, M, deltas, nb_choices, quick):
     return cases
 
 
+def gen_boundary_max(rng, cat, R, M):
+    """largest allowed messages (MAX, MAX-1 bytes) starting at the last candidate offsets of a block and at the
+    first of the next — the cases that need every byte of the READ+MAX read"""
+    cases = []
+    for d in (-3, -2, -1, 0, 1, 2):
+        for size in (M, M - 1):
+            for nb in (2, 3, 5):
+                total = (nb - 1) * R + max(M + 10, R // 2)
+                items = [(k * R + d, sized_msg(size, seq=k)) for k in range(1, nb)]
+                cases.append({'kind': 'boundary:max-size', 'delta': d, 'recipe': layout(items, total, ('z', 0) if d % 2 else ('r', 77 + d))})
+    return cases
+
+
 def gen_tails(rng, cat, R, M):
     cases = []
     tails = [0, 1, 2, 3, 4, 22, 23, 24, 25, 26, 47, 48, M - 2, M - 1, M, M + 1, M + 2, M + 23, M + 24, M + 25, R - 1]
@@ -312,11 +330,16 @@ def gen_overlap(rng, cat, R, M, count):
     for n in range(count):
         nb = rng.choice([2, 3, 4, 6])
         k = rng.randrange(1, nb)
-        csz = rng.choice([24, 32, 40 if M < 200 else 164])
-        pre = rng.randrange(0, max(1, min(60, M - 24 - 24 - 10)))
-        inner = rng.randrange(0, 12)
-        mid = rng.randrange(0, 10)
-        post = rng.randrange(0, 10)
+        if M < 24 + 24 + 24 + 40:       # small constants: only the tightest construct fits (A = B = 2 headers, C = 1 header)
+            slack = M - 48
+            csz, pre, inner, mid, post = 24, 0, rng.randrange(0, slack + 1), 0, 0
+            mid = rng.randrange(0, slack - inner + 1)
+        else:
+            csz = rng.choice([24, 32, 164])
+            pre = rng.randrange(0, 60)
+            inner = rng.randrange(0, 12)
+            mid = rng.randrange(0, 10)
+            post = rng.randrange(0, 10)
         a_size = 24 + pre + 24 + inner
         b_size = 24 + inner + mid + csz + post
         if a_size > M or b_size > M:
@@ -452,6 +475,7 @@ def gen_small_exhaustive(rng, cat, quick):
     cases += [dict(c, kind='small:' + c['kind']) for c in gen_overlap(rng, cat, R, M, 150 if quick else 1500)]
     cases += [dict(c, kind='small:' + c['kind']) for c in gen_nested(rng, cat, R, M, 60 if quick else 600)]
     cases += [dict(c, kind='small:' + c['kind']) for c in gen_tails(rng, cat, R, M)]
+    cases += [dict(c, kind='small:' + c['kind']) for c in gen_boundary_max(rng, cat, R, M)]
     cases += [dict(c, kind='small:' + c['kind']) for c in gen_trunc(rng, cat, R, M)]
     cases += [dict(c, kind='small:' + c['kind']) for c in gen_boundary(rng, cat, R, M, range(-25, 26), [2, 3, 4, 5, 6], quick)]
     for c in cases:
@@ -551,6 +575,8 @@ def run(ctx):
     ctx.notes.append('generated constants: READ=%d MAX=%d MAX_EXPECTED=%d widths=%r' % (R, M, consts['MAX_EXPECTED_SIZE_BYTES'], widths))
     if not ctx.coq():
         ctx.broken_proof()
+    elif ctx.thorough and not ctx.coqchk():
+        ctx.broken_proof('coqchk rejected the compiled development')
     exe = vf.build_extracted('c08', 'C08', 'c08_driver.ml', conv=False)
     flags = cur_cfg_flags()
     legacy_view = not flags[4]
@@ -571,6 +597,7 @@ def run(ctx):
     real += gen_trunc(rng, cat, R, M)
     real += gen_tails(rng, cat, R, M) if not quick else gen_tails(rng, cat, R, M)[::2]
     real += gen_boundary(rng, cat, R, M, deltas if not quick else deltas[::2] + [-24, -23, -1, 1, 23, 25], [2, 3, 4, 5, 6, 2, 3], quick)
+    real += gen_boundary_max(rng, cat, R, M) if not quick else gen_boundary_max(rng, cat, R, M)[::3]
     real += gen_overlap(rng, cat, R, M, 12 if quick else 60)
     real += gen_nested(rng, cat, R, M, 10 if quick else 60)
     real += gen_big(rng, cat, R, M) if not quick else gen_big(rng, cat, R, M)[::3]
@@ -590,11 +617,6 @@ def run(ctx):
     ctx.log('IMPL done')
     mdl = run_model(exe, [model_line(c, r) for c, r in zip(cases, res)])
     ctx.log('MODEL/SPEC done')
-
-    # the monkey-patched constants must actually be in force in the forked workers: some small-constant case with more
-    # than one block must give entries beyond the first 64 bytes for W=16
-    if not any(c['consts'] and isinstance(r['runs'].get('16'), list) and any(e[2] > 4 * SMALL[0] for e in r['runs']['16']) for c, r in zip(cases, res)):
-        raise RuntimeError('c08: no small-constant case produced entries beyond 4 blocks with 16 workers — patched constants not in force?')
 
     seen_sig = set()
     first_corr = None
